@@ -81,9 +81,12 @@ deriving DecidableEq, Repr, Inhabited
     only if `HAatom_group(id)` is FIDGROUP / AIDGROUP (`HIfid2rec`, `HIaid2rec` of `hfile_priv.h`) -/
 structure Cfg where
   kindChecked : Bool
+  /-- `H4.Gen.Src.HCLOSE_CHECKS_ID_AIDS`: `Hclose` refuses a file id through which access elements are still attached, also
+      when other ids keep the file open -/
+  closeChecksAids : Bool := true
 deriving DecidableEq, Repr
 
-def Cfg.current : Cfg := ⟨H4.Gen.Src.H_CHECKS_ID_KIND⟩
+def Cfg.current : Cfg := ⟨H4.Gen.Src.H_CHECKS_ID_KIND, H4.Gen.Src.HCLOSE_CHECKS_ID_AIDS⟩
 
 /-! ## the atom calls (= `H4.Atom.sstep` / `sres` / `slookup` on `World.atoms`: lemmas `atoms_reg`, `atoms_rem`, `atoms_obj`) -/
 
@@ -184,17 +187,24 @@ def hopen (w : World) (path acc : Nat) (osOk : Bool) : World × Res :=
         (regF { w with frecs := w.frecs ++ [(w.nobj, ⟨path, if acc == DFACC_CREATE then DFACC_ALL else acc ||| DFACC_READ, 1, 0⟩)],
                        nobj := w.nobj + 1 } w.nobj, .id (fidNew w))
 
+/-- `Hclose` once the id is known to designate the record `p` = `r`: drop one reference; the last one releases the record unless
+    access records are still attached to it -/
+def hcloseRec (w : World) (id p : Nat) (r : FRec) : World × Res :=
+  if r.refcount == 1 then
+    -- "if file reference count is zero but there are still attached access elts, reject this close"
+    if r.attach > 0 then (w, .fail)
+    else (aRem (delF w p) id, .ok)
+  else (aRem (setF w p { r with refcount := r.refcount - 1 }) id, .ok)
+
 /-- `Hclose(file_id)` -/
 def hclose (cfg : Cfg) (w : World) (id : Nat) : World × Res :=
   match lookF cfg w id with
   | .bad => (w, .fail)
   | .confused => (w, .confused)
   | .file p r =>
-    if r.refcount == 1 then
-      -- "if file reference count is zero but there are still attached access elts, reject this close"
-      if r.attach > 0 then (w, .fail)
-      else (aRem (delF w p) id, .ok)
-    else (aRem (setF w p { r with refcount := r.refcount - 1 }) id, .ok)
+    -- "An access element that was started through THIS file id must be ended first"
+    if cfg.closeChecksAids && w.arecs.any (fun a => a.2.fileId == id) then (w, .fail)
+    else hcloseRec w id p r
 
 /-- `Hstartaccess(file_id, tag, ref, flags)`; `found` = the element lookup (and, for a new element, its creation) succeeds,
     `write` = `flags & DFACC_WRITE` -/
